@@ -223,6 +223,19 @@ class Exec:
                 for pv, f in reversed(fields[:-1]):
                     t = z3.If(kv.t == kv.ty.const(pv), base.ty.get(base.t, f), t)
                 return V(fty, t)
+            if not isinstance(sl, ast.Constant):
+                # record indexed by a name holding one of two literal keys (`k = "a" if c else "b"; rec[k]`): the same conditional over fields
+                kv = lift(self.ev(sl, st))
+                if isinstance(kv, V) and kv.ty is STR and z3.is_string_value(z3.simplify(kv.t)):
+                    f0 = base.ty.field_of_key(z3.simplify(kv.t).as_string())
+                    if f0 is not None:
+                        return V(base.ty.fields[f0], base.ty.get(base.t, f0))
+                if isinstance(kv, V) and kv.ty is STR and z3.is_app_of(kv.t, z3.Z3_OP_ITE):
+                    c_, a_, b_ = kv.t.children()
+                    if z3.is_string_value(a_) and z3.is_string_value(b_):
+                        fa, fb = base.ty.field_of_key(a_.as_string()), base.ty.field_of_key(b_.as_string())
+                        if fa is not None and fb is not None and base.ty.fields[fa] is base.ty.fields[fb]:
+                            return V(base.ty.fields[fa], z3.If(c_, base.ty.get(base.t, fa), base.ty.get(base.t, fb)))
             key = self.const_key(sl, st)
             f = base.ty.field_of_key(key)
             if f is None:
@@ -454,6 +467,9 @@ class Exec:
             return eq(a, b)
         if isinstance(op, (ast.NotEq, ast.IsNot)):
             return z3.Not(eq(a, b))
+        if isinstance(op, (ast.In, ast.NotIn)) and isinstance(b, V) and isinstance(b.ty, UnionT):
+            # membership in an Optional container: only meaningful for the container alternative (backed by a safety obligation)
+            b = self.narrow(b, st, lambda alt: True, getattr(node, "lineno", 0), "membership test")
         if isinstance(op, ast.In):
             return contains(a, b)
         if isinstance(op, ast.NotIn):
